@@ -10,7 +10,7 @@ FAULT_KINDS = ["ConnectionReset", "Other", "TimedOut", "PermissionDenied", "Brok
 class PROP(Prop):
     id = "C13"
     profiles = ["debug"]
-    rule = ("for a spread of request shapes, TCP and RTU: reply truncated at EVERY byte offset followed by end of stream or a read error of "
+    rule = ("for a spread of request shapes, TCP and RTU: partial outer frames whose payload embeds a complete valid matching reply frame, then end of stream or a read error (never data); reply truncated at EVERY byte offset followed by end of stream or a read error of "
             "each tested kind; write fault (error, zero-length write) at EVERY offset of the request frame for write granularities "
             "{1,2,3,7,all} and pending patterns; the same context used again after a write fault at every offset (lifetime stream = frame after frame); flush errors; fault-free piecewise writes; each under ambient errno states "
             "{untouched,0,2} (quick; +11,104,103,32,107,110 thorough and always for the orderly end of stream) forced before every poll.  non-trivial = a fault or a piecewise write was actually injected")
@@ -112,6 +112,29 @@ class PROP(Prop):
                             ops = [cligen.call_op(req1, R=mb.rscript([reply1[:k1]], ["e:TimedOut"])),
                                    cligen.call_op(req2, R=mb.rscript([reply2[:k2]], [tail]))]
                             cs.append(Case(cligen.cli_line(proto, slave, ops), {"k": "rfault_hist", "off": k2, "off1": k1, "tail": tail, "frame": frame2.hex(), "proto": proto}))
+        # --- a partial frame whose payload CONTAINS a complete, valid, matching reply frame (e.g. a register dump of a gateway's own traffic):
+        #     the stream ends / fails inside the outer frame, so the call is a transport error -- never the embedded frame as data
+        for proto in ("tcp", "rtu"):
+            for _ in range(30 if tier == "quick" else 300):
+                slave = rng.randrange(1, 248)
+                k = rng.choice(["RHR", "RIR", "RC", "RDI"])
+                q = rng.randrange(1, 5)
+                req = (k, rng.randrange(65536), q)
+                inner_rsp = (k, [rng.randrange(65536) for _ in range(q)]) if k in ("RHR", "RIR") else (k, [rng.random() < 0.5 for _ in range(8)])
+                inner = cligen.frame(proto, 0, slave, mb.spec_rsp_pdu(inner_rsp))
+                junk = bytes(rng.randrange(256) for _ in range(rng.choice([0, 0, 1, 2, 3])))
+                body = junk + inner + bytes(rng.randrange(256) for _ in range(rng.choice([0, 0, 1, 2])))
+                announced = len(body) + rng.randrange(1, 6)            # the outer frame announces more than ever arrives
+                if proto == "rtu":
+                    outer = bytes([slave, mb.req_fc(req), announced])
+                else:
+                    outer = mb.be16(0) + mb.be16(0) + mb.be16(announced + 3) + bytes([slave, mb.req_fc(req), announced])
+                data = outer + body
+                frame = cligen.frame(proto, 0, slave, mb.spec_req_pdu(req))
+                for tail in ("eof", "e:" + rng.choice(FAULT_KINDS)):
+                    parts = rng.choice([[data], [outer, body], [data[i:i + 1] for i in range(len(data))], mb.chunkings(data, rng, 1)[0]])
+                    cs.append(Case(cligen.cli_line(proto, slave, [cligen.call_op(req, R=mb.rscript(parts, [tail]))]),
+                                   {"k": "rfault", "off": len(data), "tail": tail, "frame": frame.hex(), "proto": proto, "embedded": True}))
         return cs
 
     def extra_checks(self, cases, tier, rng):
